@@ -234,6 +234,10 @@ pub fn judge_m2(p: &Pos, class: &Class, chosen: &str, horizon: u32) -> M2Verdict
 // ---------------------------------------------------------------------------
 
 const HAND_FENS: &[&str] = &[
+    // the only move that avoids mate in one is an under-promotion (found by the generator in an
+    // earlier run; kept by construction since the regression sweep at the end of the build)
+    "5Q2/2N5/8/8/8/8/2K1p3/k7 b - - 2 20",
+    "2Q5/5N2/8/8/8/8/3p1K2/7k b - - 0 1",
     "8/1R6/2N2P2/2kP4/2P4P/3P4/8/6K1 w - - 1 94",
     "6k1/5ppp/8/8/8/8/5PPP/R5K1 w - - 0 1",
     "r1bqkb1r/pppp1ppp/2n2n2/4p2Q/2B1P3/8/PPPP1PPP/RNB1K1NR w KQkq - 4 4",
@@ -498,19 +502,43 @@ pub fn run_c12(tier: &str, seed: u64, shard: usize, of: usize, only_job: Option<
     }
     // wide positions: judged on "mate in one" only (their three-ply analysis is too dear), and
     // only with the depth sequences that stay at 4 plies or less
-    let wide_wanted = if thorough { 40 } else { 2 };
+    let wide_wanted = if thorough { 40 } else { 4 };
     let mut wide_done = 0;
     let mut tries = 0;
+    // kept by construction (found by this generator in an earlier run): every mating move belongs
+    // to the queen that comes last in the engine's move list
+    if shard == 0 && only_job.is_none() {
+        for fen in ["7K/N1q5/q2N2k1/6q1/1q6/qB4q1/3q4/1q4q1 b - - 3 31", "7k/n1Q5/Q2n2K1/6Q1/1Q6/Qb4Q1/3Q4/1Q4Q1 w - - 3 31"] {
+            let Ok(p) = Pos::from_fen(fen) else { continue };
+            if !p.is_sane() {
+                continue;
+            }
+            let m1: Vec<String> = mating_moves(&p).iter().map(Mv::uci).collect();
+            if m1.is_empty() {
+                continue;
+            }
+            out::count("C12.positions_with_more_than_128_moves", 1);
+            let class = Class {
+                m1,
+                m2: vec![],
+                avoid: vec![],
+                allow: vec![],
+            };
+            c12_position(&p, &class, true, false, false, 899_000, shard, 4);
+        }
+    }
+    // (own random stream: the family must not shift the positions the main generator produces)
+    let mut wrng = Rng::derive(seed, 0xC12_A1DE + shard as u64);
     while wide_done < wide_wanted && tries < 6_000 && only_job.is_none() {
         tries += 1;
-        let Some(p) = random_wide(&mut rng) else { continue };
+        let Some(p) = random_wide(&mut wrng) else { continue };
         let m1: Vec<String> = mating_moves(&p).iter().map(Mv::uci).collect();
         if m1.is_empty() {
             continue;
         }
-        // half of them: every mating move comes late in the engine's own move list (a workload
+        // three in four: every mating move comes late in the engine's own move list (a workload
         // bias, not an oracle: whatever is lost at the end of a long list is decisive there)
-        if wide_done % 2 == 0 {
+        if wide_done % 4 != 3 {
             let Ok(b) = eng::load(&p.fen()) else { continue };
             let list: Vec<String> = b.get_all_moves().iter().map(ToString::to_string).collect();
             let first = list.iter().position(|m| m1.contains(m)).unwrap_or(0);
